@@ -172,10 +172,6 @@ def known(case, impl, clause):
     if any(abs(c) >= Fraction(2) ** 1000 for c in g):
         return ('F-C07-OVERFLOW the evaluation of the target or of its derivative overflows, the quotient g/g\' rounds to '
                 '0 or to a tiny number, the step test passes and the unchanged start is returned')
-    # F-C07-STALE-100: tolerance above 100 (percent) and the returned iterate is exactly 0
-    if fin(d['tol']) and d['tol'] > 100 and hex2f(impl[3:]) == 0.0:
-        return ('F-C07-STALE-100 the relative change starts at 100.0 and is not recomputed when an iterate is exactly 0: '
-                'a tolerance above 100 accepts the iterate 0 although it is no root')
     return None
 
 
@@ -218,7 +214,7 @@ def gen(rng, tier):
         ([4.0, 0.0, 1.0], 2.0, 100, 1e-4, 0, 'fixed', None),
         ([0.0, 4.0, -1.0], 0.0, 100, 1e-4, 1, 'fixed', None),
         ([-1.5, 6.0, -3.9, 0.5], 0.0, 100, 1e-4, 0, 'fixed', None),
-        ([1.0, 0.0, 1.0], 1.0, 100, 200.0, 0, 'hugetol', None),              # first iterate 0, tol > 100
+        ([1.0, 0.0, 1.0], 1.0, 100, 200.0, 0, 'hugetol', None),              # first iterate 0, tol > 100 (repaired 8dfb6bc)
         ([1.0, 0.0, 1.0], 1.0, 100, 50.0, 0, 'hugetol', None),
         ([0.0, 2.0], 3.0, 100, 1e-4, 0, 'fixed', ['0']),
         ([], 1.0, 100, 1e-4, 0, 'deg0', None),
